@@ -16,7 +16,7 @@ pub fn def() -> CheckDef {
         meta: CheckMeta {
             id: "C03",
             level: "exploration",
-            rule: "generated single-threaded step sequences over {open reader (<= 4 open), close reader j (any order), writer commit(ops), writer rollback(ops), each optionally with 1-2 readers begun while the writer is open, reopen (only with no reader open)} (plus sequences that start with one reader held across 30-70 small commits) with update/delete-heavy operations on a bounded key set at page size 1024, so pages are freed and reused at every commit, and bursts that rewrite ~40 page-sized values so that the free set is drained and any page released too early is overwritten at once. Each reader keeps the model clone taken when it began; after EVERY step every open reader is dumped in full and compared with its clone (a panic is a failure); commits are also checked with the independent parser. The file is pre-sized so that no commit grows it while a reader is open on the same thread (documented self-deadlock); cases that would come near the limit are discarded and counted. Non-trivial = a reader that stayed open across >= 2 commits of which at least one reused previously freed pages, while another reader of a different age was open. Distinct = hash of the case.",
+            rule: "generated single-threaded step sequences over {open reader (<= 4 open), close reader j (any order; by drop, or by a commit() call that must be refused), writer commit(ops), writer rollback(ops), each optionally with 1-2 readers begun while the writer is open, reopen (only with no reader open)} (plus sequences that start with one reader held across 30-70 small commits) with update/delete-heavy operations on a bounded key set at page size 1024, so pages are freed and reused at every commit, and bursts that rewrite ~40 page-sized values so that the free set is drained and any page released too early is overwritten at once. Each reader keeps the model clone taken when it began; after EVERY step every open reader is dumped in full and compared with its clone (a panic is a failure); commits are also checked with the independent parser. The file is pre-sized so that no commit grows it while a reader is open on the same thread (documented self-deadlock); cases that would come near the limit are discarded and counted. Non-trivial = a reader that stayed open across >= 2 commits of which at least one reused previously freed pages, while another reader of a different age was open. Distinct = hash of the case.",
             assumptions: &[
                 "one thread holds several read transactions and at most one write transaction at a time; the writer never needs to grow the file (pre-sized), which is the documented precondition for doing this on one thread",
             ],
@@ -30,6 +30,8 @@ pub fn def() -> CheckDef {
 pub enum Step {
     OpenReader,
     CloseReader(u8),
+    /// the reader is ended by calling commit() on it (must return the read-only error)
+    CommitReader(u8),
     Write {
         commit: bool,
         ops: Vec<Op>,
@@ -76,6 +78,7 @@ pub fn strategy(max_steps: usize, num_pages: usize) -> impl Strategy<Value = C03
     let step = prop_oneof![
         3 => Just(Step::OpenReader),
         2 => any::<u8>().prop_map(Step::CloseReader),
+        1 => any::<u8>().prop_map(Step::CommitReader),
         3 => burst,
         6 => (small_ops(12), inside()).prop_map(|(ops, inside)| Step::Write { commit: true, ops, inside }),
         1 => (small_ops(12), inside()).prop_map(|(ops, inside)| Step::Write { commit: false, ops, inside }),
@@ -120,6 +123,7 @@ pub struct C03Stats {
     pub discarded: bool,
     pub reopen: u64,
     pub begun_inside_writer: u64,
+    pub readers_committed: u64,
 }
 
 fn read_prefix(path: &std::path::Path, ps: u64) -> Result<Vec<u8>, Failure> {
@@ -196,6 +200,21 @@ pub fn run_case(case: &C03Case, path: &std::path::Path, st: &mut C03Stats) -> Re
                                 st.nontrivial = true;
                             }
                             drop(r);
+                        }
+                    }
+                    Step::CommitReader(j) => {
+                        if !readers.is_empty() {
+                            let i = (*j as usize * readers.len()) >> 8;
+                            let r = readers.remove(i);
+                            if r.commits_seen >= 2 && r.reuse_seen >= 1 && r.overlapped_other_age {
+                                st.nontrivial = true;
+                            }
+                            st.readers_committed += 1;
+                            match r.tx.commit() {
+                                Err(jammdb::Error::ReadOnlyTx) => {}
+                                Err(e) => return Err(Failure::new("ret", format!("commit on a read-only transaction: expected ReadOnlyTx got {}", e)).at(step_i, None)),
+                                Ok(()) => return Err(Failure::new("ret", "commit on a read-only transaction returned Ok".into()).at(step_i, None)),
+                            }
                         }
                     }
                     Step::Write { commit, ops, inside } => {
@@ -318,6 +337,9 @@ fn shard(ctx: &ShardCtx, known: &Known) -> ShardOut {
         }
         if st.begun_inside_writer > 0 {
             classes.push("reader begun while a write transaction was open".into());
+        }
+        if st.readers_committed > 0 {
+            classes.push("reader ended by a (refused) commit() call".into());
         }
         if st.reopen > 0 {
             classes.push("reopen".into());
